@@ -470,6 +470,7 @@ func (fc *funcContext) FindLabel(block *codeBlock, gotoLabel *gotoLabelDesc, i i
 	target := block.GetLabel(gotoLabel.Name)
 	if target != nil {
 		if gotoLabel.NumActiveLocalVars > target.NumActiveLocalVars && block.RefUpvalue {
+			fc.Code.SetOpCode(gotoLabel.Pc-1, OP_CLOSE)
 			fc.Code.SetA(gotoLabel.Pc-1, target.NumActiveLocalVars)
 		}
 		fc.ResolveGoto(gotoLabel, target, i)
@@ -487,6 +488,7 @@ func (fc *funcContext) ResolveCurrentBlockGotosWithParentBlock() {
 		}
 		if gotoLabel.NumActiveLocalVars > blockActiveLocalVars {
 			if fc.Block.RefUpvalue {
+				fc.Code.SetOpCode(gotoLabel.Pc-1, OP_CLOSE)
 				fc.Code.SetA(gotoLabel.Pc-1, blockActiveLocalVars)
 			}
 			gotoLabel.SetNumActiveLocalVars(blockActiveLocalVars)
@@ -1156,7 +1158,8 @@ func compileLabelStmt(context *funcContext, stmt *ast.LabelStmt, isLastStmt bool
 } // }}}
 
 func compileGotoStmt(context *funcContext, stmt *ast.GotoStmt) { // {{{
-	context.Code.AddABC(OP_CLOSE, 0, 0, 0, sline(stmt))
+	// placeholder: becomes OP_CLOSE only if the jump leaves the scope of captured locals
+	context.Code.AddABC(OP_NOP, 0, 0, 0, sline(stmt))
 	context.Code.AddASbx(OP_JMP, 0, labelNoJump, sline(stmt))
 	label := newLabelDesc(-1, stmt.Label, context.Code.LastPC(), sline(stmt), context.BlockLocalVarsCount())
 	context.AddUnresolvedGoto(label)
